@@ -30,7 +30,8 @@ TABLE = {
             ('OpyVerif.Proofs.C19', 'Opy', r'dump_series'),
             ('OpyVerif.Generated.Constants', 'Opy.Gen', r'historyKeys_eq'),
             ('OpyVerif.Generated.Skeletons', 'Opy.Gen', r'skel_\w+_good')],
-    'C05': [('OpyVerif.Proofs.C05', 'Opy', None)],
+    'C05': [('OpyVerif.Proofs.C05', 'Opy', None), ('OpyVerif.Proofs.C05code', 'Opy', None),
+            ('OpyVerif.Model.EffectSites', 'Opy', None), ('OpyVerif.Generated.Effects', 'Opy.Gen', None)],
     'C06': [('OpyVerif.Proofs.C06', 'Opy', None),
             ('OpyVerif.Proofs.ClipCode', 'Opy', None), ('OpyVerif.Proofs.ClipProg', 'Opy', None),
             ('OpyVerif.Generated.ClipLoops', 'Opy.Gen', None),
